@@ -57,8 +57,8 @@ RULE = ('structural: all 1330 depth<=2 expressions over a 14-leaf alphabet (samp
         'distinct = distinct (provider, mode, query text); join and collection queries: hand-made shapes + seeded random queries (1-2 atoms, inner conditions of depth <= 3) '
         'on 4 providers and on real SQLite over fixed object graphs (groups with 0..4 members, None among member values and among g\'s own)')
 
-QUICK = dict(len_queries=20, len_search=120, aggr_queries=30, aggr_search=200, coll_queries=30, coll_search=150, join_queries=40, join_search=150, like_random=60, n_random=240, n_enum=300, n_depth3=60, sem_random=90, sem_enum=110, sem_depth3=30, rows=6, search_random=260, search_ext=160)
-THOROUGH = dict(len_queries=300, len_search=3000, aggr_queries=400, aggr_search=4000, coll_queries=400, coll_search=3000, join_queries=500, join_search=3000, like_random=600, n_random=2500, n_enum=1330, n_depth3=500, sem_random=600, sem_enum=700, sem_depth3=200, rows=14, search_random=4000, search_ext=3000)
+QUICK = dict(form_queries=25, form_search=150, len_queries=20, len_search=120, aggr_queries=30, aggr_search=200, coll_queries=30, coll_search=150, join_queries=40, join_search=150, like_random=60, n_random=240, n_enum=300, n_depth3=60, sem_random=90, sem_enum=110, sem_depth3=30, rows=6, search_random=260, search_ext=160)
+THOROUGH = dict(form_queries=300, form_search=3000, len_queries=300, len_search=3000, aggr_queries=400, aggr_search=4000, coll_queries=400, coll_search=3000, join_queries=500, join_search=3000, like_random=600, n_random=2500, n_enum=1330, n_depth3=500, sem_random=600, sem_enum=700, sem_depth3=200, rows=14, search_random=4000, search_ext=3000)
 
 
 def sizes(ctx, deep=False):
@@ -157,6 +157,16 @@ def correspondence(ctx):
         disagreements.append({'what': 'model and implementation differ (%s): %s' % (m['mode'], m['query']), 'input': {k: v for k, v in m.items() if k != 'impl'},
                               'impl': m.get('impl'), 'coq_case': l_exprs[i][:1500]})
 
+    # (6c) subquery conditions under and / or / not: subquery list + conditions (subqueries as pseudo columns) on four providers, result lists on SQLite
+    f_exprs, f_meta, f_dis, f_nontriv, f_dist = C.form_cases(ctx, C.gen_form_queries(ctx, z.get('form_queries', 25)), creal)
+    disagreements += f_dis
+    dist['collection_formula'] = f_dist
+    f_bad = H.run_bools(ctx, f_exprs, name='form', header=C.FORM_HEADER, prelude='Definition DB := %s.\n' % C.coq_db(cgraph), jobs=2)
+    for i in f_bad[:10]:
+        m = f_meta[i]
+        disagreements.append({'what': 'model and implementation differ (%s): %s' % (m['mode'], m['query']), 'input': {k: v for k, v in m.items() if k != 'impl'},
+                              'impl': m.get('impl'), 'coq_case': f_exprs[i][:1500]})
+
     # (7) aggregates as whole-query results: aggregate column + conditions on four providers, the value on real SQLite
     a_exprs, a_meta, a_dis, a_nontriv, a_dist = A.aggr_cases(ctx, A.gen_queries(ctx, z.get('aggr_queries', 30)), real)
     disagreements += a_dis
@@ -179,8 +189,8 @@ def correspondence(ctx):
     if s_meta: samples.append({'structural': s_meta[len(s_meta) // 2]})
     if m_meta: samples.append({'semantic': m_meta[len(m_meta) // 2]})
     samples.append({'coq_case': exprs[len(exprs) // 3][:600]})
-    dist['cases'] = {'structural': len(s_exprs), 'semantic': len(m_exprs), 'reference': len(r_exprs), 'like': len(k_exprs), 'join': len(j_exprs), 'collection': len(c_exprs), 'collection_len': len(l_exprs), 'aggregate': len(a_exprs)}
-    return Corr(cases=len(exprs) + len(k_exprs) + len(j_exprs) + len(c_exprs) + len(l_exprs) + len(a_exprs), nontrivial=len(s_nontriv) + len(m_nontriv) + len(k_nontriv) + len(j_nontriv) + len(c_nontriv) + len(l_nontriv) + len(a_nontriv), disagreements=disagreements, samples=samples, distribution=dist,
+    dist['cases'] = {'structural': len(s_exprs), 'semantic': len(m_exprs), 'reference': len(r_exprs), 'like': len(k_exprs), 'join': len(j_exprs), 'collection': len(c_exprs), 'collection_len': len(l_exprs), 'collection_formula': len(f_exprs), 'aggregate': len(a_exprs)}
+    return Corr(cases=len(exprs) + len(k_exprs) + len(j_exprs) + len(c_exprs) + len(l_exprs) + len(f_exprs) + len(a_exprs), nontrivial=len(s_nontriv) + len(m_nontriv) + len(k_nontriv) + len(j_nontriv) + len(c_nontriv) + len(l_nontriv) + len(f_nontriv) + len(a_nontriv), disagreements=disagreements, samples=samples, distribution=dist,
                 note='every case is a boolean computed by vm_compute inside Coq from the model and the serialised implementation output')
 
 
@@ -223,6 +233,8 @@ def search(ctx, deep):
     evals += c_evals; failures += c_fail; nontriv |= c_nontriv; dist['collection'] = c_dist
     l_evals, l_fail, l_nontriv, l_dist = C.len_search(ctx, C.gen_len_queries(ctx, z.get('len_search', 120)), creal)
     evals += l_evals; failures += l_fail; nontriv |= l_nontriv; dist['collection_len'] = l_dist
+    f_evals, f_fail, f_nontriv, f_dist = C.form_search(ctx, C.gen_form_queries(ctx, z.get('form_search', 150)), creal)
+    evals += f_evals; failures += f_fail; nontriv |= f_nontriv; dist['collection_formula'] = f_dist
     areal = H.RealDb(table_rows(ctx, 8))
     a_evals, a_fail, a_nontriv, a_dist = A.aggr_search(ctx, A.gen_queries(ctx, z.get('aggr_search', 200), search=True), areal, H.RealDb)
     evals += a_evals; failures += a_fail; nontriv |= a_nontriv; dist['aggregate'] = a_dist
@@ -235,6 +247,7 @@ def replay(ctx, data):
     if 'join' in data: return J.replay_join(data['join'])
     if 'coll' in data: return C.replay_coll(data['coll'])
     if 'len' in data: return C.replay_len(data['len'])
+    if 'form' in data: return C.replay_form(data['form'])
     if 'aggr' in data: return A.replay_aggr(data['aggr'], H.RealDb)
     return H.replay_sqlite(data)
 
@@ -249,11 +262,12 @@ LEVEL_TEXT = ('Machine-checked proof (Coq 8.16.1, structural induction on the ex
               'linked SQLite; an end-to-end differential search on real SQLite also covers LIKE / upper / lower / slices / between. Further theorems with their own models, ties '
               'and searches: the LIKE family (C01_like), attribute paths through Optional to-one references with the FROM / LEFT JOIN section (C01_left_join_rows, '
               'C01_select_join_rows), and conditions over a to-many collection - EXISTS / NOT EXISTS, IN / NOT IN subqueries with the IS NOT NULL checks, COUNT(DISTINCT pk) '
-              'scalar subqueries, correlated inner conditions (C01_collection_atom, C01_collection_rows), len(g.members) / count(g.members) in conditions with the LEFT JOIN + '
+              'scalar subqueries, correlated inner conditions (C01_collection_atom, C01_collection_rows), the same subquery conditions combined freely with and / or / not '
+              '(C01_collection_formula_rows: every subquery has the stored form of its three-valued Python value), len(g.members) / count(g.members) in conditions with the LEFT JOIN + '
               'GROUP BY + HAVING statement the translator emits (C01_collection_len_rows), and aggregates as whole-query results without GROUP BY - count / sum / '
               'min / max / avg of a scalar expression over the filtered rows with the DISTINCT forms, NULL skipping and sum of nothing = 0 (C01_aggregate) - each stated except '
               'for recorded, refuted defects.')
-LEVEL_NOTE = ('Partial: joins over several loop variables, collection conditions other than the exists / in / count / len atoms (sum / min / max over a collection, nested collections, or / not around exists / in), aggregates with GROUP BY / HAVING or several per query, ordering, dates, Decimal / float, JSON, arrays, hybrid methods, lambdas and generator '
+LEVEL_NOTE = ('Partial: joins over several loop variables, collection conditions other than the exists / in / count / len atoms (sum / min / max over a collection, nested collections), aggregates with GROUP BY / HAVING or several per query, ordering, dates, Decimal / float, JSON, arrays, hybrid methods, lambdas and generator '
               'objects (decompiler), entity row decoding are outside the theorem and outside this check. Trusted: Coq kernel + vm_compute; the hand-written translation '
               'model (tied structurally on every run); documentation models of PostgreSQL / MySQL (nothing executes there); the reference reading of None written from '
               'the property statement.')
